@@ -27,8 +27,10 @@ PROP = "C04"
 def h1_session(rng):
     reqs = []
     for _ in range(rng.choice([1, 1, 2, 3])):
-        method = rng.choice([b"GET", b"POST", b"HEAD", b"PUT", b"OPTIONS"])
+        method = rng.choice([b"GET", b"POST", b"HEAD", b"PUT", b"OPTIONS", b"CONNECT"])
         target = rng.choice([b"/", b"/a/b?x=1", b"/%41%zz", b"*", b"/" + b"a" * 200])
+        if method == b"CONNECT" and rng.random() < 0.7:
+            target = b"example.com:443"
         hs = [(b"Host", rng.choice([b"example.com", b"example.com", b"example.com", b"ex\xffmple.com", b"\xe9\xe9"]))]
         body = b""
         if method in (b"POST", b"PUT"):
